@@ -478,3 +478,147 @@ func ruleKeywordOperandsInContainers(c *eng.Ctx) {
 		c.Check(ok, R, name+"#keywords", fn.Pos(), "the keyword recognition is reachable from here", "nothing reachable from here recognises true, false and null: such an element or value is refused although it is an ordinary operand")
 	}
 }
+
+// ---------------------------------------------------------------------------------------------------------------
+// R2.26 a slice bound or an index is not computed in a type that can wrap.
+
+// narrowIntBits: 8, 16 or 32 for the sized integer types narrower than the machine word, 0 otherwise.
+func narrowIntBits(t types.Type) (bits int, unsigned bool) {
+	bt, ok := t.Underlying().(*types.Basic)
+	if !ok {
+		return 0, false
+	}
+	switch bt.Kind() {
+	case types.Uint8:
+		return 8, true
+	case types.Uint16:
+		return 16, true
+	case types.Uint32:
+		return 32, true
+	case types.Int8:
+		return 8, false
+	case types.Int16:
+		return 16, false
+	case types.Int32:
+		return 32, false
+	}
+	return 0, false
+}
+
+// R2.26 [C02]
+func ruleBoundsNotInNarrowArithmetic(c *eng.Ctx) {
+	const R = "R2.26-BOUND-NOT-IN-NARROW-ARITHMETIC"
+	c.Rule(R, "a slice bound, an index or an allocation size is not the sum, product or left shift of two non-constant values computed in an 8-, 16- or 32-bit integer type, unless the operands are proven small enough for the result to fit, or the same sum computed in a wide type was found to be at most a slice length on the way (slice lengths are taken to be below 2^31): such arithmetic wraps around silently, the wrapped value passes the range test it is compared in, and the slice expression panics on the unwrapped operand (offset 0xFFFFFFF0 + length 0x20 = 0x10)", 0, 1)
+	n := 0
+	for _, fn := range c.P.ModuleFuncs() {
+		if fn.Blocks == nil {
+			continue
+		}
+		k := 0
+		seen := map[*ssa.BinOp]bool{}
+		check := func(in ssa.Instruction, v ssa.Value, what string) {
+			if v == nil {
+				return
+			}
+			for {
+				if cv, ok := v.(*ssa.Convert); ok {
+					v = cv.X
+					continue
+				}
+				break
+			}
+			b, ok := v.(*ssa.BinOp)
+			if !ok || seen[b] || (b.Op != token.ADD && b.Op != token.MUL && b.Op != token.SHL) {
+				return
+			}
+			bits, uns := narrowIntBits(b.Type())
+			if bits == 0 {
+				return
+			}
+			_, cx := eng.ConstInt(b.X)
+			_, cy := eng.ConstInt(b.Y)
+			if cx && cy {
+				return
+			}
+			seen[b] = true
+			max := int64(1)<<uint(bits) - 1
+			if !uns {
+				max = int64(1)<<uint(bits-1) - 1
+			}
+			fits := false
+			switch b.Op {
+			case token.ADD:
+				fits = bounded(in.Parent(), b.X, max/2, true, b.Block(), 0) && bounded(in.Parent(), b.Y, max/2, true, b.Block(), 0)
+				if !fits {
+					if kx, ok := eng.ConstInt(b.X); ok && kx >= 0 {
+						fits = bounded(in.Parent(), b.Y, max-kx, true, b.Block(), 0)
+					}
+					if ky, ok := eng.ConstInt(b.Y); ok && ky >= 0 {
+						fits = bounded(in.Parent(), b.X, max-ky, true, b.Block(), 0)
+					}
+				}
+			case token.MUL:
+				for _, pair := range [][2]ssa.Value{{b.X, b.Y}, {b.Y, b.X}} {
+					if kx, ok := eng.ConstInt(pair[0]); ok && kx > 0 {
+						fits = fits || bounded(in.Parent(), pair[1], max/kx, true, b.Block(), 0)
+					}
+				}
+				root := int64(1)<<uint(bits/2) - 1
+				fits = fits || (bounded(in.Parent(), b.X, root, true, b.Block(), 0) && bounded(in.Parent(), b.Y, root, true, b.Block(), 0))
+			case token.SHL:
+				if ky, ok := eng.ConstInt(b.Y); ok && ky >= 0 && ky < int64(bits) {
+					fits = bounded(in.Parent(), b.X, max>>uint(ky), true, b.Block(), 0)
+				}
+			}
+			if !fits {
+				// the same sum (product) was computed in a wide type and found to be at most a length there: lengths of
+				// in-memory slices are taken to be below 2^31 here (assumption stated in the rule), so the narrow result is exact
+				strip := func(v ssa.Value) ssa.Value {
+					for {
+						if cv, ok := v.(*ssa.Convert); ok {
+							v = cv.X
+							continue
+						}
+						return v
+					}
+				}
+				fits = eng.GuardedBy(in.Parent(), in.Block(), func(f eng.Fact) bool {
+					op, x, y, ok := f.Cmp()
+					if !ok || (op != token.LEQ && op != token.LSS) {
+						return false
+					}
+					w, isB := x.(*ssa.BinOp)
+					if !isB || w.Op != b.Op {
+						return false
+					}
+					if wb, _ := narrowIntBits(w.Type()); wb != 0 {
+						return false
+					}
+					if call, isCall := y.(*ssa.Call); !isCall || eng.CalleeName(call) != "builtin:len" {
+						return false
+					}
+					return (eng.SameValue(strip(w.X), b.X) && eng.SameValue(strip(w.Y), b.Y)) || (eng.SameValue(strip(w.X), b.Y) && eng.SameValue(strip(w.Y), b.X))
+				})
+			}
+			n++
+			k++
+			c.Check(fits, R, fmt.Sprintf("%s#%s%d", eng.FuncName(fn), what, k), b.Pos(), "the operands are small enough for the narrow result to be exact", fmt.Sprintf("the %s is computed as %s in %s from operands not proven small: the arithmetic wraps around (0xFFFFFFF0 + 0x20 = 0x10), the wrapped value passes the range test, and the access panics (slice bounds out of range) or reads the wrong bytes", what, b.Op, b.Type()))
+		}
+		eng.Instrs(fn, true, func(in ssa.Instruction) {
+			switch x := in.(type) {
+			case *ssa.Slice:
+				check(in, x.Low, "bound")
+				check(in, x.High, "bound")
+				check(in, x.Max, "bound")
+			case *ssa.IndexAddr:
+				check(in, x.Index, "index")
+			case *ssa.Index:
+				check(in, x.Index, "index")
+			case *ssa.MakeSlice:
+				check(in, x.Len, "size")
+				check(in, x.Cap, "size")
+			}
+		})
+	}
+	c.Ok(R, "module#scanned", token.NoPos, fmt.Sprintf("%d narrow sums, products or shifts used as a bound", n))
+}
